@@ -1006,6 +1006,21 @@ def flip_jpt_case(rows, k=3):
     return out
 
 
+def flip_sdvc_case(rows, k=3):
+    out = []
+    for r in rows:
+        if r["row"]["part"] == "type" and r["row"]["via"] == "with_resolver" and r["out"]["accept"] is False and \
+                r["row"]["shape"] == "t1_t2" and r["row"]["k1"] == "embedded" and r["row"]["k2"] == "embedded" and r["row"]["has"] == [1]:
+            r = json.loads(json.dumps(r))
+            r["out"]["accept"] = True           # claim that the extended type's schema need not hold
+            out.append(r)
+            if len(out) >= k:
+                break
+    if not out:
+        raise ToolError("canary: no row whose extended type rejects the credential")
+    return out
+
+
 def flip_tfr_case(rows, k=3):
     out = []
     for r in rows:
@@ -1054,6 +1069,8 @@ def c16(chk):
     extended_stage(chk, "JptFlow", "JPT", ".jpt", canary=flip_jpt_case)
     # ... and its revocation mechanism: validity timeframes kept alive by BBS+ signature updates (TimeframeRevocation.tla)
     extended_stage(chk, "TimeframeRevocation", "TFR", ".tfr", canary=flip_tfr_case)
+    # ... and SD-JWT VC type metadata: schemas along extension chains, claim disclosability policies (SdJwtVcType.tla)
+    extended_stage(chk, "SdJwtVcType", "SDVC", ".sdvc", canary=flip_sdvc_case)
     chk.assumptions += ["sd-jwt-payload 0.2 (SdObjectEncoder/Decoder, SHA-256) trusted for disclosure hashing",
                         "the 'no latest bound' rows compare with the current time; iat is chosen decades away from any run"]
 
